@@ -58,6 +58,8 @@ type FilterEvent struct {
 }
 
 type Call struct {
+	// an intermediary put a (possibly contradicting) X-RestLi-Method header on a request to a simple resource
+	liedHeader bool
 	// per-key error objects a keyed batch reply carries, with a copy taken when they were made (C08: error objects
 	// returned by resource code are not modified)
 	batchErrs                                    []*common.ErrorResponse
